@@ -493,6 +493,7 @@ package cron
 //@   modifies nothing
 //@ func WithParser$1
 //@   tags C08
+//@   refines functype github.com/dapr/kit/cron.Option
 //@   requires c != nil
 //@   modifies c.parser
 //@   ensures [C08.opt.parser] c.parser == p
@@ -502,6 +503,7 @@ package cron
 //@   modifies nothing
 //@ func WithLocation$1
 //@   tags C08
+//@   refines functype github.com/dapr/kit/cron.Option
 //@   requires c != nil
 //@   modifies c.location
 //@   ensures [C08.opt.location] c.location == loc
@@ -511,6 +513,7 @@ package cron
 //@   modifies nothing
 //@ func WithLogger$1
 //@   tags C08
+//@   refines functype github.com/dapr/kit/cron.Option
 //@   requires c != nil
 //@   modifies c.logger
 //@   ensures [C08.opt.logger] c.logger == logger
@@ -520,6 +523,7 @@ package cron
 //@   modifies nothing
 //@ func WithClock$1
 //@   tags C08
+//@   refines functype github.com/dapr/kit/cron.Option
 //@   requires c != nil
 //@   modifies c.clk
 //@   ensures [C08.opt.clock] c.clk == clk
@@ -534,13 +538,15 @@ package cron
 //@   modifies nothing
 //@ func WithChain$1
 //@   tags C08
+//@   refines functype github.com/dapr/kit/cron.Option
 //@   requires c != nil
 //@   modifies c.chain
 //@   ensures [C08.opt.chain] c.chain.wrappers == wrappers
 
 // An Option, as a function value: it configures the Cron it is applied to and nothing else. Proved for the options of
-// this package (the With*$1 closures above: one field of c each); for options written by the user it is an assumption
-// (`skip`: the engine has no refinement obligation between a function type and the closures that inhabit it).
+// this package (the With*$1 closures above declare `refines functype …Option`: their preconditions follow from this
+// contract's and their frames lie within fields(c) -- refine:pre / refine:frame obligations); for options written by
+// the user it is an assumption (`skip`).
 //@ func functype github.com/dapr/kit/cron.Option
 //@   skip
 //@   params c
